@@ -1390,6 +1390,19 @@ def sptenmat_cases(rng, tier):
         Xall = {"t": "sptenmat", "sptensor": Sspec(rng, shape, "all"), "rdims": rd}
         out.append(case(C, "__setitem__", "change", Xall, [tup([py(0), py(0)]), py(9.0)], {},
                         M(C, "__setitem__", flag="change"), "inplace"))
+        # value arrays (operands that must stay untouched and unshared): 1-d, column, F / C layouts
+        out.append(case(C, "__setitem__", "change/array-1d", Xall, [tup([py(0), sl(None, None)]), farr([3] * c)], {},
+                        M(C, "__setitem__", flag="change"), "inplace"))
+        out.append(case(C, "__setitem__", "change/array-col", Xall,
+                        [tup([sl(None, None), py(0)]), arr([r, 1], [4] * r, "f", "C")], {},
+                        M(C, "__setitem__", flag="change"), "inplace"))
+        out.append(case(C, "__setitem__", "delete/array", Xall, [tup([py(0), sl(None, None)]), farr([0] * c)], {},
+                        M(C, "__setitem__", flag="rebuild"), "inplace"))
+        Xe = {"t": "sptenmat", "sptensor": Sspec(rng, shape, "empty"), "rdims": rd}
+        out.append(case(C, "__setitem__", "empty-recv/array", Xe, [tup([iarr([0]), iarr([0])]), arr([1, 1], [5], "f")], {},
+                        M(C, "__setitem__", flag="rebuild"), "inplace"))
+        out.append(case(C, "__setitem__", "index-arrays", X, [tup([iarr([0, 0]), iarr([0])]), farr([2, 7])], {},
+                        M(C, "__setitem__", flag="change" if [0] * N in X["sptensor"]["subs"] else "rebuild"), "inplace"))
     out.append(case(C, "__init__", "none", None, [], {}, M(C, "__init__", flag="none"), "ctor"))
     return out
 
@@ -1686,9 +1699,10 @@ class OpsFamily(Family):
     theorems = ("C05_no_visibility", "C05_pure_sound", "C05_fresh_sound", "C05_inplace_only", "C05_nocopy_within",
                 "C05_table_sound", "C05_table_semantics")
 
-    def __init__(self, name, genfn):
+    def __init__(self, name, genfn, extra=()):
         self.name = name
         self.genfn = genfn
+        self.theorems = OpsFamily.theorems + tuple(extra)
 
     def gen(self, rng, tier):
         return self.genfn(rng, tier)
@@ -1972,9 +1986,15 @@ class NumpyIdioms(Family):
 
 
 OPS = [OpsFamily("ops_tensor", tensor_cases), OpsFamily("ops_sptensor", sptensor_cases),
-       OpsFamily("ops_ktensor", ktensor_cases), OpsFamily("ops_ttensor", ttensor_cases),
-       OpsFamily("ops_sumtensor", sumtensor_cases), OpsFamily("ops_tenmat", tenmat_cases),
-       OpsFamily("ops_sptenmat", sptenmat_cases), OpsFamily("ops_utils", utils_cases),
+       OpsFamily("ops_ktensor", ktensor_cases, ("C05_fresh_ktensor_ops", "C05_fresh_ktensor_more", "C05_inplace_only_ktensor")),
+       OpsFamily("ops_ttensor", ttensor_cases, ("C05_static_compositional", "C05_call_pureFresh", "C05_fresh_ttensor_ops",
+                                                "C05_fresh_ttensor_products", "C05_fresh_ttensor_permute_reconstruct")),
+       OpsFamily("ops_sumtensor", sumtensor_cases, ("C05_static_compositional", "C05_call_pureFresh", "C05_fresh_sumtensor_ops",
+                                                    "C05_fresh_sumtensor_full", "C05_nocopy_sumtensor_ctor")),
+       OpsFamily("ops_tenmat", tenmat_cases, ("C05_fresh_tenmat_ctranspose", "C05_fresh_tenmat_ops", "C05_nocopy_tenmat_ctor",
+                                              "C05_tenmat_to_tensor")),
+       OpsFamily("ops_sptenmat", sptenmat_cases, ("C05_fresh_sptenmat_ops", "C05_nocopy_sptenmat_ctor")),
+       OpsFamily("ops_utils", utils_cases),
        OpsFamily("algorithms", alg_cases)]
 
 
